@@ -376,8 +376,19 @@ def oracle(cases, impl):
             fclass = cur["fmap"][fi][0].get(int(f[2], 16) // 8, "unwritten")
             stats["flips"][fclass] = stats["flips"].get(fclass, 0) + 1
         sig = None
+        sig_vse = None
         if fclass in ("type", "typetag"):
+            # the open finding is a re-typing into another KNOWN record type (accepted silently by design of the
+            # format); a flip that makes the type unknown is refused loudly by the code ('unexpected block type'),
+            # so a silent non-prefix result there is a new failure, not the known one
             sig = SIG_TYPE
+            sig_vse = SIG_TYPE      # ValidSnapshotEntries has no default case: it skips unknown types in the baseline
+            bit = int(f[2], 16)
+            data = cur["files"][fi][1]
+            if fclass == "type" and bit // 8 < len(data) and (data[bit // 8] ^ (1 << (bit % 8))) not in (1, 2, 3, 4, 5):
+                sig = None
+            if fclass == "typetag":
+                sig = None
         if ik in ("T", "X", "Z"):
             stats["nocrc_evaluated"] = stats.get("nocrc_evaluated", 0) + 1
             if crc_collision(cur["files"][-1][1], cur["fmap"][-1], c[2]):
@@ -397,7 +408,7 @@ def oracle(cases, impl):
         if o["vse"] is not None and not o["vse"].startswith("err") and o["vse"] != "panic":
             got = [] if o["vse"] == "-" else [tuple(int(x, 16) for x in s.split(".")) for s in o["vse"].split("|")]
             if not any(valid_snaps(recs, k, drop, st0) == got for k in range(max(req, drop), len(recs) + 1)):
-                fails.append(dict(name="vse-" + cid, case=case, signature=sig,
+                fails.append(dict(name="vse-" + cid, case=case, signature=sig_vse or sig,
                                   what="ValidSnapshotEntries returned markers %s that are not the valid markers of any "
                                        "prefix holding the %d synced records" % (o["vse"], req)))
                 continue
